@@ -2,6 +2,7 @@ package failsafehttp
 
 import (
 	"bytes"
+	"context"
 	"fmt"
 	"io"
 	"net/http"
@@ -77,7 +78,12 @@ func doRequest(request *http.Request, executor failsafe.Executor[*http.Response]
 		}
 
 		ctx, cancel := util.MergeContexts(request.Context(), exec.Context())
-		defer cancel(nil)
+		release := true
+		defer func() {
+			if release {
+				cancel(nil)
+			}
+		}()
 		req := request.WithContext(ctx)
 
 		// Get new body for each attempt
@@ -93,8 +99,26 @@ func doRequest(request *http.Request, executor failsafe.Executor[*http.Response]
 			}
 		}
 
-		return reqFn(req)
+		resp, err := reqFn(req)
+		if err == nil && resp != nil && resp.Body != nil {
+			// Keep the attempt's context alive until the response body is closed, so that a streamed body can still be read
+			release = false
+			resp.Body = &cancelOnCloseBody{ReadCloser: resp.Body, cancel: cancel}
+		}
+		return resp, err
 	})
+}
+
+// cancelOnCloseBody cancels the context that a response was obtained with when the response's body is closed.
+type cancelOnCloseBody struct {
+	io.ReadCloser
+	cancel context.CancelCauseFunc
+}
+
+func (b *cancelOnCloseBody) Close() error {
+	err := b.ReadCloser.Close()
+	b.cancel(nil)
+	return err
 }
 
 // bodyReader returns a function that can repeatedly read the untypedBody of an http.Request.
